@@ -165,6 +165,35 @@ def run(F, tier, res):
              samples=sorted(x.split('::')[-1] for x in boundary)[:6])
     reset_rule(F, res, resetters, 'C10', PER_FILE_FIELDS)
     reset_order_rule(F, res, resetters, boundary, 'C10')
+    # ---- FRESH-HUNK: per-hunk line-number state is overwritten from the hunk header, never accumulated from the previous hunk
+    # (sections without a `diff ` line - plain `diff -u`, hand-made patches - see no per-file reset at all)
+    ih = [q for q in F.fn_bodies if q.endswith('::initialize_hunk')]
+    nf = okf = 0
+    if not ih:
+        res.anchor_missing('LineNumbersData::initialize_hunk')
+    for q in ih:
+        for w in Ru.field_writes(F, q, None, None):
+            if w[2] not in ('assign', 'call') or not w[1]:
+                continue
+            fld = w[1][0][1]
+            if w[1][0][0] is None or 'LineNumbersData' not in str(w[1][0][0]):
+                continue
+            nf += 1
+            if w[2] == 'assign':
+                ops = [x for x in w[3][2][1:] if isinstance(x, dict)]
+            else:
+                ops = list(w[3]['args'])
+            selfdep = False
+            for o in ops:
+                for r in F.trace(q, o, deep=True):
+                    if r[0] in ('param', 'local') and r[0] == 'param' and r[1] == 1 and r[2] and r[2][0] == fld:
+                        selfdep = True
+            if selfdep:
+                res.violate('FRESH-HUNK', 'fn=%s;field=%s' % (q, fld), 'the per-hunk field `%s` is computed from its own previous value: line-number state of an earlier hunk / file section '
+                            'leaks into later ones (nothing resets it for sections that do not start with a `diff ` line)' % fld, where=F.bodies[q]['mir']['span']['at'])
+            else:
+                okf += 1
+    res.rule('C10.FRESH-HUNK', nf, 3, 'field writes in LineNumbersData::initialize_hunk: none depends on the field\'s previous value', discharged=okf)
     # ---- DETERMINISM
     mains = [p for p in F.fn_bodies if p == 'main']
     roots = mains or None
